@@ -132,6 +132,12 @@ func c03Case(c *core.Ctx, id string) {
 	}
 	recoverAndJudge := func(what string, cpus int) bool {
 		e.ChildBuild = childBuilder(c, cpus)
+		// an index-preferring load (what `dawn list` / `dawn gc` do) must cope with whatever the
+		// interrupted run left in index.json
+		if ires, ialive := e.ChildBuild(pj.BuildReq{Root: e.S.Root, PreferIndex: true, Args: e.P.Args}, nil); !ialive || ires.LoadErr != "" {
+			viol("state-not-loadable", map[string]any{"after": what, "load": "index-preferring", "error": ires.LoadErr + ires.RunErr})
+			return false
+		}
 		st, res, alive := e.Build(target, pj.BuildOpt{Child: true, Always: false})
 		switch {
 		case !alive:
